@@ -18,30 +18,9 @@ class EngineC(tops.Component):
         return any("open:c" in l for l in cr.impl)
 
     def finding_id(self, cr):
-        """every oracle message of the case must be explained by a listed finding"""
-        if not cr.ops or not cr.oracle:
-            return None
-        ws = cr.ops[-1].split()
-        ids = set()
-        for _, m in cr.oracle:
-            if ws[0] == "life" and ws[6] == "regrace" and "C19: an accepted Register call delivered no result" in m:
-                ids.add("register-races-with-shutdown")
-            elif ws[0] == "life" and not (ws[3] == "1" and ws[1] == "tcp") and (int(ws[5]) > 0 or ws[6] == "stormstop") and "C07:" in m and "after Run returned" in m \
-                    and re.search(r"leaked (socket\(connected\),?)+$", m.strip()):
-                ids.add("accepted-socket-leaks-when-loop-exits-first")
-            else:
-                return None
-        return sorted(ids) or None
-
-
-class EngineZone(EngineC):
-    """client lives against a link-local IPv6 peer (addresses with a zone): the runtime half of C17"""
-    suffix = ""
-    ncases = (6, 60)
-
-    def gen_args(self, tier, seed):
-        n = self.ncases[0] if tier == "quick" else self.ncases[1]
-        return [["-seed", str(seed), "-cases", str(n), "-only", "zone"]]
+        """no open finding concerns this component any more (the stranded hand-overs and the unanswered Register
+        calls were fixed in /repo: 0887da1)"""
+        return None
 
 
 class EngineHandover(EngineC):
@@ -101,9 +80,7 @@ class EngineRace(EngineC):
         """every oracle message of the case must be explained by a listed finding"""
         ids = set()
         for _, m in cr.oracle:
-            if "C19: an accepted Register call delivered no result" in m:
-                ids.add("register-races-with-shutdown")
-            elif "data race" in m and "(*listener).close" in m and "(*listener).dup" in m:
+            if "data race" in m and "(*listener).close" in m and "(*listener).dup" in m:
                 ids.add("race-dup-vs-listener-close")
             elif "data race" in m and any(w in m for w in ("activateReactors", "runEventLoops", "OpenPoller", "NewLockFreeQueue", "baseLoadBalancer).register")) \
                     and any(r in m for r in ("gnet.Engine.", "enroll.func1", "(*eventloop).Register", "(*eventloop).Enroll", "(*Poller).Trigger")):
